@@ -4,7 +4,7 @@ From Coq Require Import Extraction ExtrOcamlBasic.
 From GoShGen Require Import Extracted.
 From GoSh Require Import Base.Bytes Base.Outcome Store.Env Store.EnvSpec.
 From GoSh Require Import Arith.ASyntax Arith.AEval.
-From GoSh Require Import Expand.Expand Expand.Spec Lex.Quote Lex.Heredoc.
+From GoSh Require Import Expand.Expand Expand.Spec Lex.Quote Lex.Heredoc Lex.HeredocExp Lex.Alias Lex.AliasStream.
 From GoSh Require Import Parse.Skel Parse.Grammar Lex.Layout Print.Heredocs.
 From GoSh Require Import Pattern.Regex Pattern.PCompile Pattern.Match Pattern.PSpec Pattern.Glob.
 Extraction Language OCaml.
@@ -18,7 +18,8 @@ Extraction "model.ml"
   PSpec.spec_prefix PSpec.spec_suffix PSpec.pmb_any
   ASyntax.alex ASyntax.aparse ASyntax.has_bad ASyntax.is_letter ASyntax.is_udigit ASyntax.uni_universe
   Env.is_sp_param Env.is_pos_param Bytes.rune_count
-  Heredoc.read_heredoc
+  Heredoc.read_heredoc HeredocExp.read_exp
+  AliasStream.read AliasStream.unread AliasStream.asubst AliasStream.flatten Alias.alias_lookup
   Quote.scan_word Quote.quote_single Quote.quote_double Quote.quote_backslash
   Spec.split_spec Spec.split_model Spec.posix_table Expand.expand Expand.word_size Expand.join_all Expand.ifs_value
   Expand.expand_top Expand.split_field Expand.fempty Expand.funquote
